@@ -3,10 +3,20 @@
 Correspondence: the model's parse -> serialize pipeline vs the real one, on the original schema
 and on the (dereferenced) first-round document.  Oracle: strict JSON equality (true != 1) of the
 first- and second-round documents; classes obtained by executing the generated Python equal the
-parsed ones."""
+parsed ones.
+
+Two routes take the first-round document back to the parser:
+  * the tree route: every `$ref` is replaced by a private copy of its target, `definitions` is dropped and the
+    tree goes through `parse_element` (this is the route the model follows, so the model predicts its result);
+  * the document route: the document as it stands - JSON text, `definitions` kept, every `$ref` replaced by the
+    target dict itself, so that all users of a class and its `definitions` entry are ONE dict, which is what
+    json_ref_dict's `materialize` hands to the command line's parser - goes through `parse` (top-level schema,
+    then every member of `definitions`) and `serialize_json(*elements)`.
+The property speaks about "parsing that document again": both routes have to give the first-round document back."""
 import json
 import random
 
+from statham.schema.parser import parse
 from statham.serializers import serialize_json, serialize_python
 
 from harness import core, jsonref
@@ -15,7 +25,9 @@ from harness.gen import SchemaGen, families, WHITESPACE_DESCRIPTIONS
 
 ID = "C06"
 TIE_MODULES = ["StathamModel.Tie"]
-ASSUMPTIONS = ["the harness's own local $ref resolver puts the serialized document back into parser input form"]
+PROOF_MODULES = ["StathamModel.Lemmas.SerOk", "StathamModel.Lemmas.ParseNF"]
+ASSUMPTIONS = ["the harness's own local $ref resolvers put the serialized document back into parser input form: by private copies of the "
+               "targets (tree route) and by sharing one dict per target with `definitions` kept, as json_ref_dict.materialize does (document route)"]
 N_SCHEMAS = {"quick": 900, "thorough": 30000}
 
 
@@ -41,6 +53,69 @@ def round_trip(schema):
     except TypeError:
         return {"stage": "serialize1", "status": "primaryIsFalse", "el": el}
     return {"stage": "ok", "el": el, "j1": j1}
+
+
+def share_refs(doc):
+    """Resolve every local `$ref` of a self-contained document IN PLACE to the target dict itself: all pointers to one
+    target (and the target's own place under `definitions`) become the same dict object.  Literal keywords are not
+    descended; the keys of properties-like maps are names, not keywords.  Returns (doc, number of pointers replaced,
+    number of distinct targets: each of them is reachable both from its user(s) and from its own place in the document)."""
+    users = {}
+    seen = set()
+
+    def target(ref):
+        node, hops = jsonref.resolve_pointer(doc, ref), 0
+        while isinstance(node, dict) and set(node) == {"$ref"} and isinstance(node["$ref"], str):
+            node, hops = jsonref.resolve_pointer(doc, node["$ref"]), hops + 1
+            if hops > 60:
+                raise jsonref.Unresolvable("reference chain does not end")
+        users[id(node)] = users.get(id(node), 0) + 1
+        return node
+
+    def is_ref(v):
+        return isinstance(v, dict) and set(v) == {"$ref"} and isinstance(v["$ref"], str)
+
+    def put(container, key, v, names=False):
+        if is_ref(v):
+            v = container[key] = target(v["$ref"])
+        walk(v, names)
+
+    def walk(node, names=False):
+        if isinstance(node, dict):
+            if id(node) in seen:
+                return
+            seen.add(id(node))
+            for k, v in list(node.items()):
+                if not names and k in jsonref.LITERAL_KEYS:
+                    continue
+                if not names and k in ("properties", "patternProperties", "dependencies", "definitions") and isinstance(v, dict):
+                    walk(v, True)
+                elif isinstance(v, (dict, list)):
+                    put(node, k, v)
+        elif isinstance(node, list):
+            for i, v in enumerate(node):
+                if isinstance(v, (dict, list)):
+                    put(node, i, v)
+
+    walk(doc)
+    return doc, sum(users.values()), len(users)
+
+
+def document_round(j):
+    """The first-round document, as a document, through the real pipeline once more:
+    JSON text -> shared-target `$ref` resolution (definitions kept) -> parse -> serialize_json(*elements)."""
+    doc, replaced, shared = share_refs(json.loads(json.dumps(j)))
+    try:
+        elements = parse(doc)
+    except RecursionError:
+        return {"stage": "parse", "status": "RecursionError", "replaced": replaced, "shared": shared}
+    except Exception as exc:  # noqa: BLE001 - whatever escapes from the library here is an observation
+        return {"stage": "parse", "status": f"{type(exc).__name__}: {str(exc)[:160]}", "replaced": replaced, "shared": shared}
+    try:
+        j2 = plain(serialize_json(*elements))
+    except Exception as exc:  # noqa: BLE001
+        return {"stage": "serialize", "status": f"{type(exc).__name__}: {str(exc)[:160]}", "replaced": replaced, "shared": shared}
+    return {"stage": "ok", "els": elements, "j": j2, "replaced": replaced, "shared": shared}
 
 
 def regions_of(schema, j1):
@@ -96,6 +171,175 @@ def duplicate_class_names(doc):
     return walk(doc)
 
 
+def bump(stats, key, n=1):
+    stats[key] = stats.get(key, 0) + n
+
+
+def document_route(case, j1, j2, out, stats):
+    """Oracle of the document route: `serialize_json(*parse(D1))` must be `D1` itself, where `D1` is the first-round
+    document with `definitions` kept and shared `$ref` targets.  `j2` is what the tree route gave (the model's route; a
+    difference there has been reported, with its region, by the caller).  A document-route result that is neither `D1`
+    nor the tree route's document is a failure no listed region describes: the regions are about what the first parse
+    does to the ORIGINAL schema's order, and the model predicts the tree route's document, nothing else.
+    Returns False when a failure was recorded."""
+    try:
+        dr = document_round(j1)
+    except (jsonref.Unresolvable, TypeError, ValueError, RecursionError):
+        bump(stats, "document-route-skipped")
+        return True
+    bump(stats, "document-route-round-trips")
+    if dr["replaced"]:
+        bump(stats, "document-route-with-shared-targets")
+        bump(stats, "document-route-pointers-replaced", dr["replaced"])
+    if dr["stage"] != "ok":
+        out.failures.append({"case": case, "finding": None,
+                             "what": f"document route: the first-round document (definitions kept, one dict per $ref target) fails at "
+                                     f"{dr['stage']} ({dr['status']}), while its dereferenced tree parses and serializes"})
+        bump(stats, "document-route-FAILS")
+        return False
+    jd = dr["j"]
+    if strict(jd) == strict(j1):
+        bump(stats, "document-route-identity")
+        return True
+    if strict(jd) == strict(j2):
+        bump(stats, "document-route-differs-exactly-as-tree-route")
+        return True
+    out.failures.append({"case": case, "finding": None,
+                         "what": "document route: parsing the first-round document (definitions kept, one dict per $ref target, parse()) and "
+                                 "serializing again differs from it at " + str(first_diff(j1, jd))
+                                 + ("" if strict(j1) != strict(j2) else "; the dereferenced tree does round-trip")})
+    bump(stats, "document-route-FAILS")
+    return False
+
+
+# ---------------------------------------------------------------------------------------------------------------- families
+# Every place of a parent schema where a sub-schema can sit: (keyword, how to put the sub-schema there).
+def _in_map(kw, key):
+    return lambda parent, sub: parent.setdefault(kw, {}).__setitem__(key, sub)
+
+
+def _in_list(kw, pad):
+    return lambda parent, sub: parent.setdefault(kw, []).append(sub) if kw in parent else parent.__setitem__(kw, list(pad) + [sub])
+
+
+def _direct(kw):
+    return lambda parent, sub: parent.__setitem__(kw, sub)
+
+
+PLACES = {
+    "properties": [_in_map("properties", "a"), _in_map("properties", "b")],
+    "patternProperties": [_in_map("patternProperties", "^a"), _in_map("patternProperties", "b$")],
+    "additionalProperties": [_direct("additionalProperties")],
+    "propertyNames": [_direct("propertyNames")],
+    "dependencies": [_in_map("dependencies", "a"), _in_map("dependencies", "b")],
+    "items": [_direct("items"), _in_list("items", []), _in_list("items", [{"type": "integer"}])],
+    "additionalItems": [_direct("additionalItems")],
+    "contains": [_direct("contains")],
+    "anyOf": [_in_list("anyOf", []), _in_list("anyOf", [{"type": "string"}])],
+    "oneOf": [_in_list("oneOf", []), _in_list("oneOf", [{"type": "null"}])],
+    "allOf": [_in_list("allOf", []), _in_list("allOf", [{"minProperties": 0}])],
+    "not": [_direct("not")],
+}
+OBJECT_PLACES = ("properties", "patternProperties", "additionalProperties", "propertyNames", "dependencies")
+ARRAY_PLACES = ("items", "additionalItems", "contains")
+SIBLING_PLACES = ("properties", "patternProperties", "dependencies", "items", "anyOf", "oneOf", "allOf")
+CLASS_BODIES = [
+    {"properties": {"sku": {"type": "string"}}, "required": ["sku"]},
+    {"properties": {"note": {"type": "string"}}},
+    {"properties": {"n": {"type": "integer"}}, "additionalProperties": False},
+    {"minProperties": 1},
+    {"description": "bare"},
+    {"patternProperties": {"^x": {"type": "number"}}, "maxProperties": 3},
+]
+
+
+def _deeper(rng, sub):
+    """the class one level further down, behind an array or behind another (differently titled) class"""
+    k = rng.random()
+    if k < 0.5:
+        return sub
+    if k < 0.75:
+        return {"type": "array", "items": sub}
+    return {"type": "object", "title": "Mid", "properties": {"inner": sub}}
+
+
+def same_title_family(rng):
+    """Two or three object schemas with ONE title and different bodies (the parser numbers them in the order it meets them,
+    the serializer writes the numbered names back as titles), hanging off every pair of sub-schema keywords of one parent,
+    and off two members of every keyword that holds several.  What a round trip may change here is which class gets which
+    name, whenever two walks of the same tree disagree about the order."""
+    kws = list(PLACES)
+    pairs = [(a, b) for i, a in enumerate(kws) for b in kws[i + 1:]] + [(k, k) for k in SIBLING_PLACES]
+    for _ in range(16):
+        pairs.append(tuple(rng.sample(kws, 3)))
+    for combo in pairs:
+        title = rng.choice(["Entry", "my entry", "T"])
+        bodies = rng.sample(CLASS_BODIES, len(combo))
+        parent = {}
+        if all(k in OBJECT_PLACES for k in combo) and rng.random() < 0.5:
+            parent = {"type": "object", "title": "Holder"}
+        elif all(k in ARRAY_PLACES for k in combo) and rng.random() < 0.5:
+            parent = {"type": "array"}
+        used = {}
+        for kw, body in zip(combo, bodies):
+            variants = PLACES[kw]
+            if kw in used:                       # the second member of a keyword that holds several
+                place = used[kw]
+            else:
+                place = used[kw] = rng.choice(variants[1:] if (combo.count(kw) > 1 and kw == "items") else variants)
+                if combo.count(kw) > 1 and kw in ("properties", "patternProperties", "dependencies"):
+                    used[kw] = variants[1]
+                    place = variants[0]
+            place(parent, _deeper(rng, {"type": "object", "title": title, **body}))
+        k = rng.random()
+        if k < 0.6:
+            yield "top", parent
+        elif k < 0.8:
+            yield "under-property", {"type": "object", "title": "Outer", "properties": {"p": parent, "q": {"type": "string"}}}
+        else:
+            yield "under-items", {"type": "array", "items": parent}
+
+
+BOOLEAN_SCHEMAS = (False, True, {})
+
+
+def referenced_class_family(rng):
+    """An object class that is NOT the top-level schema - so it lives in `definitions`, is reached through `$ref` and, in the
+    document route, is one dict with several users - holding a boolean or empty schema in each of its sub-schema places."""
+    def bodies(v):
+        yield "properties", {"properties": {"a": v}}
+        yield "properties-required", {"properties": {"a": v}, "required": ["a"]}
+        yield "patternProperties", {"patternProperties": {"^a": v}}
+        yield "additionalProperties", {"additionalProperties": v}
+        yield "propertyNames", {"propertyNames": v}
+        yield "dependencies", {"dependencies": {"a": v}}
+        yield "array-items", {"properties": {"a": {"type": "array", "items": v}}}
+        yield "array-tuple", {"properties": {"a": {"type": "array", "items": [v], "additionalItems": v}}}
+        yield "array-contains", {"properties": {"a": {"type": "array", "contains": v}}}
+        yield "not", {"properties": {"a": {"not": v}}}
+        yield "anyOf", {"properties": {"a": {"anyOf": [v, {"type": "string"}]}}}
+
+    def placements(cls):
+        yield "property", {"type": "object", "title": "Envelope", "required": ["payload"],
+                           "properties": {"payload": {"type": "string"}, "reserved": cls}}
+        yield "two-users", {"type": "object", "title": "Envelope", "properties": {"first": cls, "second": copy_of(cls)}}
+        yield "items", {"type": "array", "items": cls}
+        yield "composition-member", {"anyOf": [cls, {"type": "string"}]}
+        yield "class-in-class", {"type": "object", "title": "Envelope",
+                                 "properties": {"mid": {"type": "object", "title": "Mid", "properties": {"reserved": cls}}}}
+        yield "additionalProperties", {"type": "object", "title": "Envelope", "additionalProperties": cls}
+
+    for v in BOOLEAN_SCHEMAS:
+        for where, body in bodies(v):
+            cls = {"type": "object", "title": "Reserved", "description": "Reserved for future use.", **body}
+            for placed, schema in rng.sample(list(placements(cls)), 2):
+                yield f"{where}={json.dumps(v)}", placed, schema
+
+
+def copy_of(x):
+    return json.loads(json.dumps(x))
+
+
 def check_case(drv, schema, out, stats):
     rt = round_trip(schema)
     case = {"schema": schema}
@@ -126,6 +370,14 @@ def check_case(drv, schema, out, stats):
     if not agree:
         out.disagreements.append({"what": "first-round document", "impl": strict(j1), "model": rep.get("json"), **case})
     regs = regions_of(schema, j1)
+    # `nfGood`: the decidable condition on the source schema under which C06_round_trip / C06_fixpoint hold (parse_NF); `nf`: the
+    # parsed tree (before de-duplication renaming) is in normal form.  nfGood must imply nf (that is the theorem, evaluated).
+    nf_good = bool(rep.get("nf_good"))
+    stats["source-nfGood-" + str(nf_good)] = stats.get("source-nfGood-" + str(nf_good), 0) + 1
+    if nf_good and not rep.get("nf"):
+        out.disagreements.append({"what": "model: nfGood schema whose parse is not in normal form (contradicts parse_NF)", **case})
+    if not nf_good and rep.get("nf"):
+        stats["normal-form-although-not-nfGood"] = stats.get("normal-form-although-not-nfGood", 0) + 1
 
     def fail(what, region=None):
         fid = region if (agree and region in regs) else None
@@ -165,6 +417,15 @@ def check_case(drv, schema, out, stats):
             out.disagreements.append({"what": "model: NF tree whose model round trip is not the identity (contradicts C06_partial_round_trip)", **case})
         if not ts["nf"] and not regs:
             stats["not-normal-form-outside-listed-regions"] = stats.get("not-normal-form-outside-listed-regions", 0) + 1
+        if nf_good and ts["same"] and not duplicate_class_names(j1) and "C06-class-name-suffixes" not in regs:
+            # C06_round_trip on the real code, hypothesis on the source schema only (the theorem is about the parser before
+            # de-duplication renaming: documents in which same-titled unequal classes get `_n` suffixes are outside it)
+            stats["theorem-instances-nfGood-on-real-code"] = stats.get("theorem-instances-nfGood-on-real-code", 0) + 1
+            if dump1 != dump2 or strict(j1) != strict(j2):
+                out.failures.append({"case": case, "finding": None,
+                                     "what": "the source schema meets nfGood (hypothesis of C06_round_trip) but the second round differs: " +
+                                             (first_diff(dump1, dump2) if dump1 != dump2 else first_diff(j1, j2))})
+                return
         if ts["nf"] and ts["same"]:
             stats["theorem-instances-on-real-code"] = stats.get("theorem-instances-on-real-code", 0) + 1
             if dump1 != dump2:
@@ -180,6 +441,8 @@ def check_case(drv, schema, out, stats):
         fail(f"second round differs from the first at {diff}",
              "C06-class-name-suffixes" if "C06-class-name-suffixes" in regs else "C06-empty-keyword-beside-composition")
     stats["round-trips"] = stats.get("round-trips", 0) + 1
+    if not document_route(case, j1, j2, out, stats):
+        return
     # python half: executing the generated source gives classes equal to the parsed ones
     el = rt["el"]
     try:
@@ -228,8 +491,11 @@ def first_diff(a, b, path="$"):
 def run(ctx, scale=1.0):
     rng = random.Random(ctx["seed"] + 6)
     out = Outcome()
-    out.rule = ("schemas from the generator and the focused families; a case is one schema taken through parse -> serialize -> deref -> "
-                "parse -> serialize; non-trivial = the schema object has >= 2 keywords; distinct by SHA-256")
+    out.rule = ("schemas from the generator and the focused families (among them: same-titled classes with different bodies at every pair "
+                "of sub-schema keywords; a class referenced from elsewhere with a boolean/empty schema in each of its sub-schema places); "
+                "a case is one schema taken through parse -> serialize -> deref -> parse -> serialize (tree route) and through "
+                "parse -> serialize -> JSON text -> shared-target $ref resolution with definitions kept -> parse() -> serialize (document "
+                "route); non-trivial = the schema object has >= 2 keywords; distinct by SHA-256")
     stats = {}
     drv = core.Driver()
     try:
@@ -245,8 +511,19 @@ def run(ctx, scale=1.0):
                        {"anyOf": [False], "default": 1}, {"type": "array"}, {"items": {}}, {"uniqueItems": False},
                        {"additionalItems": True, "additionalProperties": True}, {"type": ["string"]}, {"allOf": [{"type": "string"}]}):
             check_case(drv, schema, out, stats)
+        # (after everything else, so that the generator's share of the rng stream is what it always was)
+        for placed, schema in same_title_family(rng):
+            bump(stats, "family-same-title-classes")
+            bump(stats, "family-same-title-classes-" + placed)
+            check_case(drv, schema, out, stats)
+        for where, placed, schema in referenced_class_family(rng):
+            bump(stats, "family-referenced-class-boolean-subschemas")
+            bump(stats, "family-referenced-class-" + placed)
+            check_case(drv, schema, out, stats)
     finally:
         drv.close()
+    # the smallest failing input first (the framework reports the first one)
+    out.failures.sort(key=lambda f: len(json.dumps(f.get("case"), default=str)))
     out.stats = stats
     return out
 
